@@ -8,6 +8,8 @@ CONSTANTS
   Shorts = {0, 1, 2}
   Faults = {"flip", "fliplen", "drop", "dup", "swap", "cut", "cuteof", "trunc"}
   MaxFaults = 1
+  Others = {"rev", "peer"}
+  Glitches = {"dataerr", "temperr", "shortwrite"}
 INIT Init
 NEXT Next
 VIEW View
